@@ -5,7 +5,9 @@ package ast
 import (
 	"bytes"
 	"fmt"
+	"sort"
 	"strconv"
+	"strings"
 
 	"github.com/robfig/soy/data"
 )
@@ -676,7 +678,11 @@ type FloatNode struct {
 }
 
 func (n *FloatNode) String() string {
-	return strconv.FormatFloat(n.Value, 'g', -1, 64)
+	var s = strconv.FormatFloat(n.Value, 'g', -1, 64)
+	if !strings.ContainsAny(s, ".eIN") {
+		s += ".0" // keep it a float literal: "2" would read back as an integer
+	}
+	return s
 }
 
 type StringNode struct {
@@ -749,16 +755,43 @@ func (n *MapLiteralNode) String() string {
 	if len(n.Items) == 0 {
 		return "[:]"
 	}
+	var keys = make([]string, 0, len(n.Items))
+	for k := range n.Items {
+		keys = append(keys, k)
+	}
+	sort.Strings(keys)
 	var expr = "["
-	var first = true
-	for k, v := range n.Items {
-		if !first {
+	for i, k := range keys {
+		if i > 0 {
 			expr += ", "
 		}
-		expr += fmt.Sprintf("'%s': %s", k, v.String())
-		first = false
+		expr += quoteKey(k) + ": " + n.Items[k].String()
 	}
 	return expr + "]"
+}
+
+// quoteKey returns the string literal for a map key.
+func quoteKey(k string) string {
+	var q = []rune{'\''}
+	for _, ch := range k {
+		switch ch {
+		case '\\', '\'':
+			q = append(q, '\\', ch)
+		case '\n':
+			q = append(q, '\\', 'n')
+		case '\r':
+			q = append(q, '\\', 'r')
+		case '\t':
+			q = append(q, '\\', 't')
+		case '\b':
+			q = append(q, '\\', 'b')
+		case '\f':
+			q = append(q, '\\', 'f')
+		default:
+			q = append(q, ch)
+		}
+	}
+	return string(append(q, '\''))
 }
 
 func (n *MapLiteralNode) Children() []Node {
@@ -843,7 +876,7 @@ type NotNode struct {
 }
 
 func (n *NotNode) String() string {
-	return "not " + n.Arg.String()
+	return "not " + operand(n.Arg)
 }
 
 func (n *NotNode) Children() []Node {
@@ -856,7 +889,11 @@ type NegateNode struct {
 }
 
 func (n *NegateNode) String() string {
-	return "-" + n.Arg.String()
+	switch n.Arg.(type) {
+	case *IntNode, *FloatNode:
+		return "-(" + n.Arg.String() + ")" // "-1" would read back as a negative literal
+	}
+	return "-" + operand(n.Arg)
 }
 
 func (n *NegateNode) Children() []Node {
@@ -870,7 +907,21 @@ type BinaryOpNode struct {
 }
 
 func (n *BinaryOpNode) String() string {
-	return n.Arg1.String() + " " + n.Name + " " + n.Arg2.String()
+	return operand(n.Arg1) + " " + n.Name + " " + operand(n.Arg2)
+}
+
+// operand returns the source text of an operand of an operator. An operand that
+// is itself an operator expression is parenthesized, so that the text parses back
+// to the same tree whatever the precedences are.
+func operand(n Node) string {
+	switch n.(type) {
+	case *NotNode, *NegateNode, *TernNode,
+		*MulNode, *DivNode, *ModNode, *AddNode, *SubNode,
+		*EqNode, *NotEqNode, *GtNode, *GteNode, *LtNode, *LteNode,
+		*OrNode, *AndNode, *ElvisNode:
+		return "(" + n.String() + ")"
+	}
+	return n.String()
 }
 
 func (n *BinaryOpNode) Children() []Node {
@@ -900,7 +951,7 @@ type TernNode struct {
 }
 
 func (n *TernNode) String() string {
-	return n.Arg1.String() + "?" + n.Arg2.String() + ":" + n.Arg3.String()
+	return operand(n.Arg1) + " ? " + operand(n.Arg2) + " : " + operand(n.Arg3)
 }
 
 func (n *TernNode) Children() []Node {
